@@ -204,10 +204,19 @@ fn mechanism(files: &[FFile]) -> &'static str {
 
 fn hostile_case(sub: &str, jail: &Jail, shapes: &[&Shape], stripped: bool, dest: u8, rank: u64, acc: &mut Acc) {
     let files: Vec<FFile> = shapes.iter().map(|s| materialise(s, jail)).collect();
+
     hostile_files(sub, jail, files, stripped, dest, rank, acc)
 }
 
-fn hostile_files(sub: &str, jail: &Jail, files: Vec<FFile>, stripped: bool, dest: u8, rank: u64, acc: &mut Acc) {
+fn hostile_files(sub: &str, jail: &Jail, mut files: Vec<FFile>, stripped: bool, dest: u8, rank: u64, acc: &mut Acc) {
+    // regular entries carry contents of different lengths, the earlier the longer (two entries of one path: the result must be
+    // one of the two contents, not a mixture)
+    const CONTENTS: [&[u8]; 3] = [b"FIRST-ENTRY-WITH-THE-LONGEST-CONTENT", b"second entry", b"3rd"];
+    for (k, f) in files.iter_mut().enumerate() {
+        if f.mode & 0o170000 == 0o100000 {
+            f.content = CONTENTS[k.min(2)].to_vec();
+        }
+    }
     acc.evals += 1;
     jail.reset();
     let order: Vec<usize> = (0..files.len()).collect();
@@ -259,6 +268,35 @@ fn hostile_files(sub: &str, jail: &Jail, files: Vec<FFile>, stripped: bool, dest
                 .rank(rank),
         );
     }
+    // inside the target: a regular file at a path that entries of the package name holds the content of one of them
+    if let Ok(Ok(())) = &r {
+        let t = jail.target();
+        for f in &files {
+            if f.mode & 0o170000 != 0o100000 {
+                continue;
+            }
+            let p = f.path();
+            if p.split('/').any(|c| c == "..") || p.contains(&jail.outside_dir()) {
+                continue;
+            }
+            let at = t.join(p.trim_start_matches('/'));
+            if let Ok(md) = std::fs::symlink_metadata(&at) {
+                if md.is_file() {
+                    let got = std::fs::read(&at).unwrap_or_default();
+                    // (archive entries are paired with header entries by name, so the data of any entry of that path may end up there)
+                    let candidates: Vec<&FFile> = files.iter().filter(|g| g.path().trim_start_matches('/') == p.trim_start_matches('/')).collect();
+                    if !candidates.iter().any(|g| g.archive_data() == got || (g.mode & 0o170000 == 0o040000 && got.is_empty())) {
+                        acc.viol(
+                            Violation::new(sub, format!("{} holds {:?} after extraction, which is the content of none of the package's entries for that path", p, String::from_utf8_lossy(&got)), describe())
+                                .sig("clause", "content")
+                                .sig("mechanism", "duplicate-path")
+                                .rank(rank),
+                        );
+                    }
+                }
+            }
+        }
+    }
     if rank % 499 == 0 {
         acc.sample(rank, describe);
     }
@@ -267,7 +305,7 @@ fn hostile_files(sub: &str, jail: &Jail, files: Vec<FFile>, stripped: bool, dest
 // ------------------------------------------------------------------ benign subset: file-system model
 
 /// What a package says must exist under the target, from an independent decoding.
-fn model(x: &[u8]) -> Option<Vec<(String, u16, Vec<u8>, String)>> {
+pub fn model(x: &[u8]) -> Option<Vec<(String, u16, Vec<u8>, String)>> {
     let (_, _, hdr, l) = scan(x)?;
     let get = |tag: u32| hdr.entries.iter().skip(1).find(|e| e.tag == tag).and_then(|e| value(e, &hdr.store).ok());
     let strs = |v: Option<Val>| match v {
